@@ -135,6 +135,13 @@ pub open spec fn parse_dec_u64(b: Seq<u8>) -> Option<u64> {
         None => None,
     }
 }
+use vstd::std_specs::cmp::OrdSpec;
+// ---- core::cmp::min / max (no vstd spec): the documented behaviour over vstd's ordering spec (exact for the integer types) ----
+pub assume_specification<T: Ord>[core::cmp::min::<T>](a: T, b: T) -> (r: T)
+    ensures T::obeys_cmp_spec() ==> r == (if a.cmp_spec(&b) == core::cmp::Ordering::Greater { b } else { a });
+pub assume_specification<T: Ord>[core::cmp::max::<T>](a: T, b: T) -> (r: T)
+    ensures T::obeys_cmp_spec() ==> r == (if a.cmp_spec(&b) == core::cmp::Ordering::Greater { a } else { b });
+
 /// decimal digits of n without padding ("0" for 0)
 pub open spec fn dec_digits(n: nat) -> Seq<u8>
     decreases n
